@@ -1590,6 +1590,20 @@ fn probe_13(u: &Uni, chain: &Arc<Chain>, t: &UTx, rep: &mut Report) -> Option<Vi
 	let header = chain.head_header().expect("head_header");
 	let got = pool.add_to_pool(TxSource::Broadcast, t.tx.clone(), false, &header);
 	rep.evaluations += 1;
+	// the same offer to a pool that sees the chain through the node's own PoolToChainAdapter
+	{
+		let a = Arc::new(PoolToChainAdapter::new());
+		a.set_chain(chain.clone());
+		let mut p2: RealPool = TransactionPool::new(pool_config(false), a, Arc::new(NoopPoolAdapter {}));
+		let got2 = p2.add_to_pool(TxSource::Broadcast, t.tx.clone(), false, &header);
+		rep.evaluations += 1;
+		if got2.is_ok() != got.is_ok() {
+			return Some(Viol {
+				key: format!("c13:pool:real-adapter-differs:{}", if t.kind == Kind::Locked { "height-locked-tx" } else { "coinbase-spend" }),
+				what: format!("add_to_pool({}) at body head height {}: through the engine's view of the chain = {:?}, through servers' PoolToChainAdapter = {:?}", t.name, head.height, got.as_ref().map_err(|e| format!("{:?}", e)), got2.as_ref().map_err(|e| format!("{:?}", e))),
+			});
+		}
+	}
 	let cls = match delta {
 		Some(d) => format!("{}:threshold{:+}", t.kind.name(), d.clamp(-3, 3)),
 		None => format!("{}:input-not-on-this-fork", t.kind.name()),
@@ -2246,6 +2260,7 @@ fn glue_alphabet(u: &Uni, tier: Tier) -> Vec<GOp> {
 		GOp::Submit(t("T2"), false),
 		GOp::Submit(t("T4"), false),
 		GOp::Submit(t("T4"), true),
+		GOp::Submit(t("T9"), false),
 		GOp::Connect(1, Del::None),
 		GOp::Connect(1, Del::Sync),
 		GOp::Connect(0, Del::Sync),
